@@ -209,6 +209,8 @@ func init() {
 			}
 			return ""
 		},
-		NonTrivial: func(op string, o *Obs) bool { return strings.HasPrefix(o.Line, "msg err=none") || strings.HasPrefix(o.Line, "msgs") },
+		NonTrivial: func(op string, o *Obs) bool {
+			return strings.HasPrefix(o.Line, "msg err=none") || strings.HasPrefix(o.Line, "msgs")
+		},
 	}
 }
